@@ -45,6 +45,7 @@ def run(ctx: Ctx) -> None:
     memo.rule_isinstance_on_class(ctx, _m3)
     memo.rule_zip_truncation(ctx, _m3)
     memo.rule_search_fallthrough(ctx, _m3)
+    memo.rule_zip_pairing(ctx, _m3)
     repo = ctx.repo
     m = repo.module(TRS)
     sv = repo.anchor(TRS, "TimeReversedSolver.solve")
